@@ -36,8 +36,9 @@ def gen_keys(rng, P):
     dt = rng.choice(P["key_dtypes"])
     info = np.iinfo(dt)
     n = rng.randint(1, 40) if rng.random() < 0.8 else rng.randint(1, 6)
-    if dt == "int8":
-        n = min(n, 40)
+    n = min(n, int(info.max) - int(info.min) + 1)      # (as many distinct keys as the dtype has values, at most)
+    if rng.random() < 0.05 and dt in ("int8", "uint8"):
+        n = rng.randint(65, 120)                       # default modulus 2n-1 then exceeds the key dtype's range
     mag = rng.choice(["small", "small", "neg", "limits", "huge", "mixed"])
     lo, hi = int(info.min), int(info.max)
     cap = 2 ** 62
@@ -80,9 +81,9 @@ def gen_mod(rng, keys, dt):
     if kind == "prime":
         return rng.choice(_primes()), kind
     if kind == "large":
-        return min(rng.choice([257, 1009, 4099]), max(hi, 1)), kind
+        return rng.choice([257, 1009, 4099]), kind          # may exceed the key dtype's range
     if kind == "sparse":
-        return min(8 * n + 3, max(hi, 1)), kind
+        return 8 * n + 3, kind
     # all keys collide: any modulus dividing every pairwise difference; 1 always works, try larger
     import math
     g = 0
@@ -90,7 +91,7 @@ def gen_mod(rng, keys, dt):
         g = math.gcd(g, abs(k - keys[0]))
     # (the library allocates one bucket per residue, so the modulus also bounds memory)
     for cand in (g, 64, 16, 8, 4, 2):
-        if 1 < cand <= min(hi, 4096) and g % cand == 0:
+        if 1 < cand <= 4096 and g % cand == 0:
             return cand, "collide"
     return 1, "collide1"
 
